@@ -5,6 +5,7 @@ import (
 	"mcverif/engine"
 	"mcverif/props/c01"
 	"mcverif/props/c02"
+	"mcverif/props/c03"
 	"mcverif/props/c04"
 	"mcverif/props/c07"
 	"mcverif/props/c08"
@@ -21,6 +22,7 @@ import (
 var Registry = map[string]engine.Spec{
 	"C01": c01.Spec,
 	"C02": c02.Spec,
+	"C03": c03.Spec,
 	"C04": c04.Spec,
 	"C07": c07.Spec,
 	"C08": c08.Spec,
